@@ -11,9 +11,10 @@ Domain of the theorems (explicit hypotheses, never silently assumed):
 * `UsizeArgs`: numeric arguments are usize values;
 * `NoWrap` / `Admissible`: `last_checkpoint + new_size < 2^64` in `resize`. Outside it the release
   build wraps and `resize_wrap_counterexample` shows the property FAILS there (the debug build panics);
-* `expansion_charge`: the macro's guard `new_size > len` and fewer than 2^32 words; outside,
-  `memory_gas` saturates (`memory_gas_saturates_counterexample`) and without the guard the u64
-  subtraction wraps (`resize_memory_unguarded_shrinks_counterexample`). -/
+* `expansion_charge`: the macro's guard `new_size > len` and fewer than 2^32 words (where the
+  quadratic formula certainly fits in 64 bits; `memory_gas_full` gives the clamped formula for every
+  word count after the repair of `memory_gas`); without the guard the u64 subtraction wraps
+  (`resize_memory_unguarded_shrinks_counterexample`). -/
 namespace Revm.Props.C11
 open Revm Revm.Model.Memory Revm.Proofs.Memory
 open Revm.Spec.Memory (Frames)
@@ -263,7 +264,7 @@ add: a child frame resizing to 2^64−32 cuts the shared buffer to length 0 — 
 checkpoint —, its next growth zero-fills the parent's region, and after `free_context` the parent
 reads 32 zero bytes where it had stored 0xff…ff. All arguments are usize values and the child
 frees nothing it did not open: only `NoWrap` fails. (Reaching this through `resize_memory` needs
-≈1.77·10^18 gas, affordable only because `memory_gas` saturates.) -/
+≈1.84·10^19 gas: `memory_gas` saturates to u64::MAX there, so only a frame holding all of u64::MAX gas gets that far.) -/
 theorem resize_wrap_counterexample :
     WF witnessParent
     ∧ (∀ op ∈ witnessChildOps, UsizeArgs op)
@@ -293,9 +294,15 @@ theorem resize_memory_unguarded_shrinks_counterexample :
     resizeMemory ⟨List.replicate 64 0, [0], 0⟩ (2^64 - 1) 0 = .ok (true, ⟨[], [0], 0⟩, 5) := by
   decide +kernel
 
-/-- from 2^32 words on `memory_gas` is below the quadratic formula (`w*w` saturates at 2^64−1) -/
-theorem memory_gas_saturates_counterexample :
-    memoryGas (2^32) + 1 = Spec.Memory.memGas (2^32) ∧ memoryGas (2^33) < Spec.Memory.memGas (2^33) := by
+/-- `memory_gas` (after the repair `fix: memory_gas undercharged …`) is the quadratic formula for
+every word count, clamped to `u64::MAX` where it needs more than 64 bits -/
+theorem memory_gas_full (w : Nat) : memoryGas w = min (Spec.Memory.memGas w) (U64 - 1) :=
+  memoryGas_full w
+
+/-- regression of the repaired defect (the code used to return one less / far less from 2^32 words on) -/
+theorem memory_gas_regression :
+    memoryGas (2^32) = Spec.Memory.memGas (2^32) ∧ memoryGas (2^33) = Spec.Memory.memGas (2^33)
+    ∧ memoryGas (2^37) = 2^64 - 1 := by
   decide +kernel
 
 /-- `num_words` is one word short for the last 31 lengths -/
